@@ -852,7 +852,8 @@ def rich_corpus(name, limit, rng, n_synth=None, n_const=None):
     alts = alt_spellings(name)
     if len(alts) > max(6, limit):
         alts = alts[:3] + rng.sample(alts[3:], max(6, limit) - 3)
-    return nums + extra + cv + synth_label_start(name, rng) + [a for a in alts if a not in nums]
+    pref = synth_constant_prefixes(name, rng, cap=max(6, limit), per_const=1)
+    return nums + extra + cv + synth_label_start(name, rng) + [a for a in alts if a not in nums] + pref
 
 
 def synth_alphabet(name, rng, k=3, pool='+*&/Ñ', extra_random=3):
@@ -1351,6 +1352,60 @@ def synth_table_boundaries(name, rng, cap=600):
                 continue
         if cand not in out:
             out.append(cand)
+    return out
+
+
+def synth_constant_prefixes(name, rng, cap=200, per_const=3):
+    """Valid numbers that begin with the digit strings the module's source mentions anywhere (number.startswith(
+    '356000000'), special-cased full numbers, prefixes of alternative schemes): the branches of validate() that only a
+    particular leading value reaches.  Check characters repaired through is_valid(); several tails per constant."""
+    import ast
+    mod = get_module(name)
+    try:
+        tree = ast.parse(open(mod.__file__, encoding='utf-8').read())
+    except Exception:  # noqa: B902
+        return []
+    consts = []
+    for el in ast.walk(tree):
+        if isinstance(el, ast.Constant) and isinstance(el.value, str) and el.value.isdigit() and el.value.isascii() and 2 <= len(el.value) <= 20:
+            if el.value not in consts:
+                consts.append(el.value)
+    if not consts:
+        return []
+    if len(consts) > 60:
+        consts = rng.sample(consts, 60)
+    canon = []
+    for v in corpus(name, limit=40, rng=rng):
+        try:
+            c = mod.validate(v)
+        except Exception:  # noqa: B902
+            continue
+        if isinstance(c, str) and c and len(c) not in [len(x) for x in canon]:
+            canon.append(c)
+        if len(canon) >= 3:
+            break
+    out = []
+    for c in canon:
+        dpos = [i for i, ch in enumerate(c) if ch.isdigit()]
+        if not dpos:
+            continue
+        start = dpos[0]
+        for k in consts:
+            if start + len(k) > len(c):
+                continue
+            for _ in range(per_const):
+                tail = ''.join(rng.choice('0123456789') if ch.isdigit() else ch for ch in c[start + len(k):])
+                cand = c[:start] + k + tail
+                try:
+                    ok = mod.is_valid(cand) is True
+                except Exception:  # noqa: B902
+                    ok = False
+                if not ok:
+                    cand = _repair(mod, cand)
+                if cand is not None and cand not in out and cand.startswith(c[:start] + k[:max(1, len(k) - 2)]):
+                    out.append(cand)
+            if len(out) >= cap:
+                return out
     return out
 
 
